@@ -186,7 +186,7 @@ CHECKS['C18'] = dict(title='The usage lists exactly the visible arguments, each 
     level_text='every set of 1 and 2 (thorough: 3) arguments over {short, long, both} x long-key lengths around the same-line threshold x mandatory/optional x {normal, hidden, deprecated, replaced, hidden+deprecated} x 3 description shapes x {check, default off, constraint}, displayed with every combination of -h/--help, print-hidden {off, flag, argument}, print-deprecated {off, flag, argument}, contents {all, short, long}; plus single-argument help for every spelling of every key and for unknown keys',
     level_note='oracle parses the real usage text (entry = line with 3 blanks and a dash) and trusts a 3-line visibility predicate taken from the property statement; standard arguments (help, print-hidden, ...) are checked like user arguments; order of entries inside a caption is not judged',
     rule='argument set (odometer over per-argument domains) x display setting; states = (argument set, display setting), transitions = evalArguments calls that print a usage or a single-argument help; non-trivial = argument sets',
-    bound={'quick': '1 argument: full domain (810 sets) x 54 display settings; 2 arguments: 8100 (shape, mandatory, visibility) pairs with description/feature on a diagonal x 12 display settings',
+    bound={'quick': '1 argument: full domain (810 sets) x 54 display settings; 2 arguments: 8100 (shape, mandatory, visibility) pairs with description/feature on a diagonal x 54 display settings; help-arg with prefix-related keys',
            'thorough': '2 arguments: 8100 pairs x 12 description/feature combinations x 54 display settings; 3 arguments: 110592 triples (6 shapes, 4 visibilities) x 12 display settings'},
     assumptions=['mandatory + deprecated/replaced is refused by the library at definition time: skipped and counted', 'the default value is expected for optional arguments unless switched off (the statement says "where configured")'])
 
